@@ -23,6 +23,7 @@ func init() {
 		Title: "Boolean path operations compute the set algebra of the filled regions",
 		Explanation: "Decides the finite tables of the boolean operations for every input that reaches them: each public wrapper passes the op constant of its name, its own operands and NonZero; SweepPoint.InResult's per-op membership expressions equal the property's truth table over (subject fills, clipping fills) on each side of an edge and an edge is kept iff filling changes; the pathOp switch is exhaustive; bentleyOttmann's four early-outs (Q empty, P empty, disjoint sub-path of P, of Q) keep an operand exactly for the ops whose truth table keeps it. NOT decided: the sweep itself, snap rounding, overlap merging, contour tracing, termination, area laws.",
 		Run: func(c *core.Ctx, r *core.Report) {
+			E9AbsorbedLink(c, r)
 			E9Wrappers(c, r, map[string]bool{"And": true, "Or": true, "Xor": true, "Not": true, "DivideBy": true})
 			E9InResult(c, r, []string{"opAND", "opOR", "opNOT", "opXOR", "opDIV"})
 			E9Shortcuts(c, r)
@@ -32,6 +33,7 @@ func init() {
 		Title: "Settle preserves the filled region and returns a canonical simple path",
 		Explanation: "Decides: FillRule.Fills is definite on the sign×parity classes of the winding number and equals each rule's definition, with a case for all four rules; the Settle entry points pass nil, opSettle and their own fill rule to the sweep; opSettle membership is the subject's own fill on each side; settling an empty path yields the empty path. NOT decided: canonical form, hole orientation, idempotence, the sweep.",
 		Run: func(c *core.Ctx, r *core.Report) {
+			E9AbsorbedLink(c, r)
 			E9Fills(c, r)
 			E9Wrappers(c, r, map[string]bool{"Settle": true})
 			E9InResult(c, r, []string{"opSettle"})
@@ -107,6 +109,8 @@ func init() {
 			E5Reserved(c, r)
 			E5FreshRef(c, r)
 			E5ValueTypes(c, r)
+			E5StreamFilters(c, r)
+			E5StringEscape(c, r)
 			E5StreamLength(c, r)
 			E5Metadata(c, r)
 			E5FontMaps(c, r)
@@ -146,6 +150,8 @@ func init() {
 			E2CmdLenTable(c, r)
 			E2RecordLayout(c, r)
 			E2RecordConstruction(c, r)
+			E2CloseRewrite(c, r)
+			E3DominantAxis(c, r)
 			E11SplitCap(c, r)
 			E11StuckVariables(c, r)
 			E11InPlaceInLoop(c, r)
@@ -238,6 +244,7 @@ func init() {
 			E11CopyStore(c, r)
 			E11SVGUnits(c, r)
 			E11ReuseAfterEscape(c, r, "/svg.go")
+			E11ReturnedScratch(c, r, "/svg.go")
 		},
 	})
 }
@@ -250,6 +257,7 @@ func init() {
 			E3LineHeights(c, r)
 			E11BreakWidth(c, r)
 			E11SpanShift(c, r)
+			E11GlyphCursor(c, r)
 		},
 	})
 }
